@@ -200,6 +200,7 @@ func runC19(c *Ctx) {
 			}
 		}
 	})
+	rangeFn, _ = rangeCallbackOf(wd, rangeFn)
 	read := map[string]bool{}
 	eachInstrDeep(rd, func(f *ssa.Function, in ssa.Instruction) {
 		if ci, ok := in.(*ssa.Call); ok {
@@ -237,14 +238,14 @@ func runC19(c *Ctx) {
 			return func(v ssa.Value) bool { k, ok := loadedField(v); return ok && k == IT+"."+name }
 		}
 		isParam := func(i int) func(ssa.Value) bool {
-			return func(v ssa.Value) bool { return v == ssa.Value(rangeFn.Params[i]) }
+			return func(v ssa.Value) bool { return isActualParam(v, rangeFn, i) }
 		}
 		srcOK("MsgExpirationTime", func(v ssa.Value) bool { return unixOf(v, isItemField("expirationTime")) }, "item.expirationTime.Unix()")
 		srcOK("MsgStoredTime", func(v ssa.Value) bool { return unixOf(v, isItemField("storedTime")) }, "item.storedTime.Unix()")
 		srcOK("CacheExpirationTime", func(v ssa.Value) bool { return unixOf(v, isParam(2)) }, "the entry's cache expiry .Unix()")
 		srcOK("Key", func(v ssa.Value) bool {
 			cv, ok := v.(*ssa.Convert)
-			return ok && stripConv(cv.X) == ssa.Value(rangeFn.Params[0])
+			return ok && isActualParam(stripConv(cv.X), rangeFn, 0)
 		}, "[]byte(the entry's key)")
 		srcOK("Msg", func(v ssa.Value) bool {
 			ex, ok := v.(*ssa.Extract)
@@ -390,7 +391,7 @@ func runC19(c *Ctx) {
 		var firstBlock ssa.Instruction
 		eachInstr(rd, func(in ssa.Instruction) {
 			if ci, ok := in.(*ssa.Call); ok {
-				if sc := staticCallee(ci); sc != nil && sc.Parent() == rd && firstBlock == nil {
+				if sc := staticCallee(ci); sc != nil && (sc.Parent() == rd || (isNewHelper(sc) && sc.Pkg == rd.Pkg)) && firstBlock == nil {
 					firstBlock = in
 				}
 			}
@@ -416,7 +417,7 @@ func runC19(c *Ctx) {
 	if rangeFn != nil {
 		// every CachedEntry field store is guarded by !cacheExpirationTime.Before(now)
 		g := false
-		eachInstr(rangeFn, func(in ssa.Instruction) {
+		eachInstrDeep(rangeFn, func(_ *ssa.Function, in ssa.Instruction) {
 			st, ok := in.(*ssa.Store)
 			if !ok {
 				return
@@ -424,7 +425,7 @@ func runC19(c *Ctx) {
 			if k, ok := fieldKey(st.Addr); !ok || !strings.HasPrefix(k, CE+".") {
 				return
 			}
-			for _, gd := range guardsOfInstr(in) {
+			for _, gd := range guardsWithin(in, rangeFn) {
 				v, truth := gd.asBool()
 				if cl, ok := v.(*ssa.Call); ok && callName(cl) == "(time.Time).Before" && !truth && cl.Call.Args[0] == ssa.Value(rangeFn.Params[2]) {
 					g = true
@@ -442,7 +443,7 @@ func runC19(c *Ctx) {
 			}
 			for _, gd := range guardsOfInstr(in) {
 				v, truth := gd.asBool()
-				if cl, ok := v.(*ssa.Call); ok && callName(cl) == "(time.Time).After" && !truth && cl.Call.Args[1] == ssa.Value(stF.Params[3]) {
+				if !truth && isExpiredNowTest(v, stF.Params[3], false) {
 					g = true
 				}
 			}
@@ -586,6 +587,68 @@ func runC19(c *Ctx) {
 			c.anchorMissing("append to block.Entries in the range callback")
 		} else {
 			bad := ""
+			// the entry builder extracted into a NEW helper that returns nil for an entry it cannot dump: `e := build(…);
+			// if e == nil { return nil }` is accepted when every nil return of the builder has an accepted reason
+			var acceptedSkip func(fn *ssa.Function, r *ssa.Return, depth int) bool
+			builderNilOK := func(cl *ssa.Call, depth int) bool {
+				b := cl.Call.StaticCallee()
+				if b == nil || !isNewHelper(b) || depth > 1 {
+					return false
+				}
+				n := 0
+				for _, br := range returnsOf(b) {
+					brv := returnedValues(br)
+					if len(brv) == 0 || !isNilConst(brv[0]) {
+						continue
+					}
+					n++
+					if !acceptedSkip(b, br, depth+1) {
+						return false
+					}
+				}
+				return n > 0
+			}
+			acceptedSkip = func(fn *ssa.Function, r *ssa.Return, depth int) bool {
+				expired := false
+				for _, g := range guardsOfInstr(r) {
+					if v, truth := g.asBool(); truth {
+						if cl, ok := v.(*ssa.Call); ok && callName(cl) == "(time.Time).Before" && fn == rangeFn && cl.Call.Args[0] == ssa.Value(rangeFn.Params[2]) {
+							expired = true
+						}
+					}
+					if cm, ok := g.asCmp(); ok && cm.Op == token.EQL && isNilConst(cm.Y) {
+						if cl, isC := cm.X.(*ssa.Call); isC && builderNilOK(cl, depth) {
+							expired = true
+						}
+					}
+				}
+				// D28: an entry that cannot be packed (Unpack accepts messages Pack refuses) is logged and left out;
+				// D32: so is an entry that alone exceeds the block length the reader accepts
+				for _, g := range guardsOfInstr(r) {
+					if cm, ok := g.asCmp(); ok && cm.Op == token.NEQ && isNilConst(cm.Y) {
+						if ex, isE := cm.X.(*ssa.Extract); isE {
+							if cl, isC := ex.Tuple.(*ssa.Call); isC && callName(cl) == "(*github.com/miekg/dns.Msg).Pack" {
+								expired = true
+							}
+						}
+					}
+					if cm, ok := g.asCmp(); ok && cm.Op == token.GTR {
+						if n, isC := constInt(cm.Y); isC && n == limit {
+							expired = true
+						}
+						if n, isC := constInt(cm.Y); isC && n >= 65535 {
+							if lc, isL := cm.X.(*ssa.Call); isL && callName(lc) == "builtin:len" {
+								if ex, isE := lc.Call.Args[0].(*ssa.Extract); isE {
+									if cl, isC := ex.Tuple.(*ssa.Call); isC && callName(cl) == "(*github.com/miekg/dns.Msg).Pack" {
+										expired = true
+									}
+								}
+							}
+						}
+					}
+				}
+				return expired
+			}
 			for _, r := range returnsOf(rangeFn) {
 				rv := returnedValues(r)
 				if len(rv) == 0 || !isNilConst(rv[len(rv)-1]) {
@@ -594,16 +657,7 @@ func runC19(c *Ctx) {
 				if instrDominates(app, r) {
 					continue
 				}
-				expired := false
-				for _, g := range guardsOfInstr(r) {
-					if v, truth := g.asBool(); truth {
-						if cl, ok := v.(*ssa.Call); ok && callName(cl) == "(time.Time).Before" && cl.Call.Args[0] == ssa.Value(rangeFn.Params[2]) {
-							expired = true
-						}
-					}
-				}
-				// D28: an entry that cannot be packed (Unpack accepts messages Pack refuses) is logged and left out;
-				// D32: so is an entry that alone exceeds the block length the reader accepts
+				expired := acceptedSkip(rangeFn, r, 0)
 				for _, g := range guardsOfInstr(r) {
 					if cm, ok := g.asCmp(); ok && cm.Op == token.NEQ && isNilConst(cm.Y) {
 						if ex, isE := cm.X.(*ssa.Extract); isE {
@@ -981,6 +1035,7 @@ func checkDumpWriterPairing(c *Ctx) {
 			}
 		}
 	})
+	rangeFn, _ = rangeCallbackOf(wd, rangeFn)
 	if rangeFn == nil || len(rangeFn.Params) < 3 {
 		c.anchorMissing("range function building CachedEntry in writeDump")
 		return
@@ -988,7 +1043,7 @@ func checkDumpWriterPairing(c *Ctx) {
 	c.see(rangeFn)
 	if v, ok := written["Key"]; ok {
 		cv, isC := v.(*ssa.Convert)
-		c.check(isC && stripConv(cv.X) == ssa.Value(rangeFn.Params[0]), "dump-pair:key", valuePos(v), "Key <- []byte(the entry's key)", "the dumped key is "+exprStr(v)+", not the bytes of the entry's own key: after a reload the answer is served for another question")
+		c.check(isC && isActualParam(stripConv(cv.X), rangeFn, 0), "dump-pair:key", valuePos(v), "Key <- []byte(the entry's key)", "the dumped key is "+exprStr(v)+", not the bytes of the entry's own key: after a reload the answer is served for another question")
 	} else {
 		c.fail("dump-pair:key", wd.Pos(), "writeDump never sets the entry's key")
 	}
@@ -1043,4 +1098,35 @@ func unpackErrorSkipsEntry(ci *ssa.Call) bool {
 		}
 	}
 	return found
+}
+
+// rangeCallbackOf: the functions found to build dump entries: when the CachedEntry fields are stored in a NEW helper that
+// the range callback of writeDump calls (`e := c.newDumpEntry(k, v, exp)`), the callback is the helper's only caller;
+// returns the callback (the function whose parameters are key, item, cache expiry) and the builder.
+func rangeCallbackOf(wd, builder *ssa.Function) (*ssa.Function, *ssa.Function) {
+	if builder == nil || builder.Parent() != nil || !isNewHelper(builder) {
+		return builder, builder
+	}
+	if site, ok := soleCallSite(builder).(*ssa.Call); ok && site.Parent() != nil && site.Parent().Parent() == wd {
+		return site.Parent(), builder
+	}
+	return builder, builder
+}
+
+// isActualParam: v stands for parameter i of the range callback cb: the parameter itself, or — inside the entry
+// builder helper — a helper parameter that the callback binds to it.
+func isActualParam(v ssa.Value, cb *ssa.Function, i int) bool {
+	if i >= len(cb.Params) {
+		return false
+	}
+	acts := actualsWithin(v, cb)
+	if len(acts) == 0 {
+		return false
+	}
+	for _, a := range acts {
+		if a != ssa.Value(cb.Params[i]) {
+			return false
+		}
+	}
+	return true
 }
